@@ -92,6 +92,17 @@ def judge(ctx, r, reply, case, site, opts, conc):
             else:
                 ctx.fail('dup-request', 'plain', case, '%s requested twice' % u)
         seen.add(u)
+    # ---- what closure_of_stored_records says, on the real table: a row is requested iff its STORED record is in scope
+    # (redirect-free sites only: a redirect hop is requested under the record of the redirecting row)
+    if not redirect_targets and r['exit_code'] in (0, 8):
+        for x in r['rows_raw']:
+            want = ref.accept(x['url'], x['level'], x['inline_level'], 0)
+            got = x['url'] in seen
+            if want != got:
+                ctx.fail('stored-record-verdict', 'table', case,
+                         '%s stored as (level %s, inline %s): reference verdict for that record is %s but it was %s'
+                         % (x['url'], x['level'], x['inline_level'], 'accept' if want else 'reject', 'requested' if got else 'not requested'))
+                break
     expect, _ = ref.reach_any(start)
     missing = set(expect) - seen
     extra = seen - set(expect)
